@@ -104,7 +104,12 @@ func genStep(p *Profile, cfg *Config) *rapid.Generator[[]Op] {
 			}
 			return []Op{op}
 		case "reserr":
-			return []Op{{K: "reserr"}}
+			// resolvers report errors of many dynamic types; sometimes two different ones in a row
+			ops := []Op{{K: "reserr", Out: rapid.IntRange(0, 6).Draw(t, "errkind")}}
+			if rapid.IntRange(0, 2).Draw(t, "reserr2") == 0 {
+				ops = append(ops, Op{K: "reserr", Out: rapid.IntRange(0, 6).Draw(t, "errkind2")})
+			}
+			return ops
 		case "state":
 			return []Op{state()}
 		case "pick":
@@ -569,7 +574,7 @@ var Profiles = map[string]*Profile{
 	"states": {Name: "states", Min: [2]int{1, 4}, Max: [2]int{1, 5}, WM: []int{1, 2, 100}, Fallback: 30, UdMs: []int64{7, 100}, UdCalls: []int{1}, Strict: 50, Shutdown: true, Hostile: true,
 		W: map[string]int{"resolve": 1, "state": 30, "pick": 8, "done": 4, "adv": 1, "allready": 2, "decall": 8, "readyrepl": 8, "staledown": 4, "refreshcycle": 3, "flaprefresh": 4}, Methods: allMethods},
 	"hostile": {Name: "hostile", Wild: true, WM: []int{1}, Fallback: 50, UdMs: []int64{0, 1, 7}, UdCalls: []int{0, 1}, RR: 25, Strict: 50, Shutdown: true, Hostile: true, CfgOps: true, NoFirst: 20,
-		W: map[string]int{"resolve": 4, "reserr": 1, "state": 12, "pick": 20, "done": 10, "adv": 2, "failnew": 3, "cancel": 2, "allready": 3, "bindflow": 4, "decall": 6, "readyrepl": 5, "staledown": 3, "emptypool": 1, "saturate": 2, "affswap": 3, "fbflow": 3, "refreshcycle": 2, "bindacross": 2, "multibind": 2, "rrempty": 3, "rrwrap": 2}, Methods: hostileMethods},
+		W: map[string]int{"resolve": 4, "reserr": 2, "state": 12, "pick": 20, "done": 10, "adv": 2, "failnew": 3, "cancel": 2, "allready": 3, "bindflow": 4, "decall": 6, "readyrepl": 5, "staledown": 3, "emptypool": 1, "saturate": 2, "affswap": 3, "fbflow": 3, "refreshcycle": 2, "bindacross": 2, "multibind": 2, "rrempty": 3, "rrwrap": 2}, Methods: hostileMethods},
 	"detector": {Name: "detector", Min: [2]int{1, 3}, Max: [2]int{1, 3}, WM: []int{100, 100, 2}, UdMs: []int64{0, 1, 7, 100, 60000, 1 << 31, 1<<32 - 1}, UdCalls: []int{0, 1, 1, 2, 2, 3, 4, 1 << 31, 1<<32 - 1}, Strict: 50, Shutdown: true, RR: 20,
 		W: map[string]int{"resolve": 1, "state": 5, "pick": 8, "done": 8, "adv": 4, "failnew": 3, "allready": 2, "decall": 24, "readyrepl": 10, "refreshcycle": 10, "stalede": 8, "rrstraddle": 4}, Methods: []int{0, 0, 2, 1}},
 	"fallback": {Name: "fallback", Min: [2]int{2, 4}, Max: [2]int{2, 4}, WM: []int{1, 2, 3}, Fallback: 100, UdMs: []int64{0, 7, 100}, UdCalls: []int{1}, Strict: 50,
